@@ -24,6 +24,38 @@ def index {α} (xs : List α) (i : Int) : Outcome α :=
   | some a => .ok a
   | none => .panic "index out of range"
 
+/-- `xs[i] = v` on a slice nothing else aliases (the translator checks that, `freshSlices`) -/
+def setIndex {α} (xs : List α) (i : Int) (v : α) : Outcome (List α) :=
+  if i < 0 then .panic "index out of range" else
+  if i.toNat < xs.length then .ok (xs.set i.toNat v) else .panic "index out of range"
+
+/-- `make([]T, n)` -/
+def makeSlice {α} (n : Int) (zero : α) : Outcome (List α) :=
+  if n < 0 then .panic "makeslice: len out of range" else .ok (List.replicate n.toNat zero)
+
+/-- `xs[:n]` with `n` within the length (Go allows `n` up to the capacity, which the model does not track: then it panics
+    here, and the correspondence run would show the difference) -/
+def sliceTo {α} (xs : List α) (n : Int) : Outcome (List α) :=
+  if n < 0 ∨ n > xs.length then .panic "slice bounds out of range" else .ok (xs.take n.toNat)
+
+/-- `xs[n:]` -/
+def sliceFrom {α} (xs : List α) (n : Int) : Outcome (List α) :=
+  if n < 0 ∨ n > xs.length then .panic "slice bounds out of range" else .ok (xs.drop n.toNat)
+
+/-- `a % b` on Go's `int` (truncated remainder; a zero divisor panics).  `int` is unbounded here: no wrap-around. -/
+def goMod (a b : Int) : Outcome Int :=
+  if b = 0 then .panic "integer divide by zero" else .ok (a.tmod b)
+
+/-- `a / b` on Go's `int` (truncated quotient) -/
+def goDiv (a b : Int) : Outcome Int :=
+  if b = 0 then .panic "integer divide by zero" else .ok (a.tdiv b)
+
+/-- `byte(x)`: the low eight bits -/
+def toByte (x : Int) : UInt8 := UInt8.ofNat (x % 256).toNat
+
+/-- `int(b)` for a byte -/
+def byteToInt (b : UInt8) : Int := (b.toNat : Int)
+
 /-- `url.URL`: only its `String()` is used by the translated code. -/
 structure URL where
   str : String
